@@ -57,13 +57,13 @@ theorem C09_ack_covers_batch (c : Cfg) (hc : c.ackAfterSync = true) (s : St) (bi
   simp [execAll, exec, written]
 
 /-- non-vacuity: a committed batch is acknowledged, and it survives a crash right after the call -/
-example : (run Cfg.asis s0 [.commit 1 [(⟨1, false⟩, {}), (⟨2, true⟩, {})] false]).ackedLen = 2 := by decide
-example : (written (run Cfg.asis s0 [.commit 1 [(⟨1, false⟩, {}), (⟨2, true⟩, {})] false, .crash])).length = 2 := by decide
+example : (run Cfg.asis s0 [.commit 1 [(⟨1, false, 0⟩, {}), (⟨2, true, 0⟩, {})] false]).ackedLen = 2 := by decide
+example : (written (run Cfg.asis s0 [.commit 1 [(⟨1, false, 0⟩, {}), (⟨2, true, 0⟩, {})] false, .crash])).length = 2 := by decide
 
 /-- the state right after the `ack` step of a one-entry commit when the acknowledgement precedes the sync -/
 def ackFirstState : St :=
   let c := { Cfg.good with ackAfterSync := false }
-  let steps := commitSteps c s0 1 [(⟨1, false⟩, {})] false
+  let steps := commitSteps c s0 1 [(⟨1, false, 0⟩, {})] false
   execAll s0 (steps.take 3)   -- accept, wAppend, ack
 
 /-- with `finishCommitRequests` before `wal.Sync` an acknowledged write is lost by a crash -/
@@ -75,7 +75,7 @@ theorem C09_fails_ackBeforeSync (c : Cfg) (hc : c.ackAfterSync = false) :
 /-- two commits, a rotation in between, then the flush killed between WAL removal and manifest edit -/
 def walRemovedFirstState : St :=
   let c := { Cfg.good with flushOrder := .sstRemoveManifest }
-  let s1 := run c s0 [.commit 1 [(⟨1, false⟩, {})] false, .commit 2 [(⟨2, false⟩, { mrot := true })] false]
+  let s1 := run c s0 [.commit 1 [(⟨1, false, 0⟩, {})] false, .commit 2 [(⟨2, false, 0⟩, { mrot := true })] false]
   execAll s1 ((opSteps c s1 .flush).take 4)   -- open:sst, ftrunc:sst, SST complete, remove:wal
 
 /-- removing the WAL segment before the manifest knows the table loses acknowledged writes -/
